@@ -18,6 +18,8 @@ pub enum Inner {
     NanEnergy,
     ZeroGrad,
     Stateful { calls: usize },
+    /// every atom feels a gradient of the same norm `g` along x, whatever the geometry; the energy is constant
+    ConstNorm { g: f64 },
 }
 
 pub struct Recorder {
@@ -49,6 +51,7 @@ impl Forcefield for Recorder {
             Inner::NanEnergy => f64::NAN,
             Inner::ZeroGrad => xs.iter().sum::<f64>(),
             Inner::Stateful { calls } => { *calls += 1; (*calls as f64 * 0.7).sin() * 3.0 }
+            Inner::ConstNorm { .. } => 1.0,
         };
         self.log.push(Event::E(xs, e));
         e
@@ -66,6 +69,7 @@ impl Forcefield for Recorder {
             Inner::NanEnergy => xs.iter().map(|v| *v + 1.0).collect(),
             Inner::ZeroGrad => xs.iter().map(|_| 0.0).collect(),
             Inner::Stateful { calls } => { *calls += 1; let c = *calls as f64; xs.iter().enumerate().map(|(i, _)| 5.0 * ((c + i as f64) * 0.37).cos() + 0.2).collect() }
+            Inner::ConstNorm { g } => xs.iter().enumerate().map(|(i, _)| if i % 3 == 0 { *g } else { 0.0 }).collect(),
         };
         self.log.push(Event::G(xs, g.clone()));
         self.buf = g.chunks(3).map(|c| Vector3D { x: c[0], y: c[1], z: c[2] }).collect();
@@ -214,6 +218,16 @@ pub fn run(out: &mut Out, seed: u64, tier: &str) {
     run_one(out, "nan-energy", &base, Inner::NanEnergy, Some(12), &mut stats);
     run_one(out, "zero-gradient", &base, Inner::ZeroGrad, None, &mut stats);
     run_one(out, "stateful", &base, Inner::Stateful { calls: 0 }, Some(80), &mut stats);
+    // the convergence measure on systems of different size: helium atoms on a grid (no bonds), every atom with gradient norm
+    // 0.008 (< 0.01: the walk must not go on), 0.05 and 0.2 (mean above 0.01: it must), for 8, 64, 125 and 216 atoms
+    for side in [2usize, 4, 5, 6] {
+        let mut zs = vec![]; let mut xs = vec![];
+        for a in 0..side { for b in 0..side { for c in 0..side { zs.push(2usize); xs.push([6.0 * a as f64, 6.0 * b as f64, 6.0 * c as f64]); } } }
+        let grid = Mol { name: format!("he-grid-{}", side * side * side), zs, xs };
+        for g in [0.008, 0.05, 0.2] {
+            run_one(out, &format!("const-norm {} on {} atoms", g, grid.n()), &grid, Inner::ConstNorm { g }, Some(if side > 4 { 6 } else { 30 }), &mut stats);
+        }
+    }
     run_one(out, "budget-0", &base, Inner::Flat, Some(0), &mut stats);
     run_one(out, "budget-1", &base, Inner::Flat, Some(1), &mut stats);
     for _ in 0..(if tier == "thorough" { 40 } else { 8 }) {
